@@ -39,16 +39,19 @@ def dense_of_sparse(sp):
     return A
 
 
-def strength_value(s, dim):
-    """Strength record [shape, vals] -> scalar or ndarray of the lattice dimension."""
+def strength_value(s, dim, ints=False):
+    """Strength record [shape, vals] -> scalar or ndarray of the lattice dimension.
+    ints: real integer strengths are passed as Python int / integer arrays (users do write add_onsite(1, ...))."""
     vals = [complex(re, im) for re, im in s['vals']]
     real = all(v.imag == 0 for v in vals)
     nx, ny = s['shape']
     if nx == 1 and ny == 1:
-        return vals[0].real if real else vals[0]
+        return (int(vals[0].real) if ints else vals[0].real) if real else vals[0]
     arr = np.array(vals, dtype=complex).reshape(nx, ny)
     if real:
         arr = arr.real.copy()
+        if ints:
+            arr = arr.astype(np.int64)
     if dim == 1:
         if ny != 1:
             raise core.MachineryError('2D strength for a 1D lattice')
@@ -125,12 +128,12 @@ def _latidx(cfg, xyu):
     return [x, u] if lat_dim(cfg) == 1 else [x, y, u]
 
 
-def apply_declaration(model, cfg, d):
+def apply_declaration(model, cfg, d, ints=False):
     """One add_* call on a CouplingModel for declaration record `d` of the specification."""
     kind = d['kind']
     dim = lat_dim(cfg)
     if kind == 'onsite':
-        model.add_onsite(strength_value(d['s'], dim), d['u'], d['op'], plus_hc=d['hc'])
+        model.add_onsite(strength_value(d['s'], dim, ints), d['u'], d['op'], plus_hc=d['hc'])
     elif kind == 'coupling':
         (op1, dx1, u1), (op2, dx2, u2) = d['ops']
         if any(dx1):
@@ -169,8 +172,9 @@ def model_classes():
 
         def init_terms(self, model_params):
             cfg = model_params.get('verif_cfg', None)
+            ints = model_params.get('verif_ints', False)
             for d in model_params.get('verif_decls', []):
-                apply_declaration(self, cfg, d)
+                apply_declaration(self, cfg, d, ints)
 
     class DeclNNModel(DeclModel, NearestNeighborModel):
         pass
@@ -181,7 +185,7 @@ def model_classes():
 _CLASSES = None
 
 
-def build_model(cfg, decls, explicit_plus_hc=False, conserve=None, nn=False, sort_mpo_legs=False):
+def build_model(cfg, decls, explicit_plus_hc=False, conserve=None, nn=False, sort_mpo_legs=False, int_strengths=False):
     """The real model for (lattice configuration, declarations) with the given representation options."""
     global _CLASSES
     if _CLASSES is None:
@@ -189,7 +193,7 @@ def build_model(cfg, decls, explicit_plus_hc=False, conserve=None, nn=False, sor
     sites = make_unit_cell(list(cfg['uc']), conserve)
     lat = make_lattice(cfg, sites)
     params = dict(lattice=lat, verif_cfg=cfg, verif_decls=list(decls), explicit_plus_hc=explicit_plus_hc,
-                  sort_mpo_legs=sort_mpo_legs)
+                  sort_mpo_legs=sort_mpo_legs, verif_ints=bool(int_strengths))
     cls = _CLASSES[1] if nn else _CLASSES[0]
     with warnings.catch_warnings():
         warnings.simplefilter('ignore')
